@@ -52,7 +52,7 @@ def main():
         na.append({'property_id': pid, 'reason': NA.get(pid, PENDING)})
     m = {
         'version': 1,
-        'setup_cmd': 'python3 -m py_compile check.py replay.py tools/cxxast.py tools/cxx2c.py tools/unit.py && clang++ --version >/dev/null && cbmc --version >/dev/null && goto-instrument --version >/dev/null',
+        'setup_cmd': 'python3 -m py_compile check.py replay.py replay_native.py tools/cxxast.py tools/cxx2c.py tools/unit.py tools/c18_static.py contracts/*.py && clang++ --version >/dev/null && g++ --version >/dev/null && cbmc --version >/dev/null && goto-cc --version >/dev/null && goto-instrument --version >/dev/null',
         'hooks': {'guard': 'FFSM2_VERIF', 'enable': 'no source hooks are needed: the checks read /repo through clang -ast-dump=json; the guard name is reserved and unused',
                   'baseline_off_cmd': 'cd /repo && cmake -G Ninja -B _build -S . >/dev/null && cmake --build _build && ctest --test-dir _build -j8 --timeout 900',
                   'source_commits': [], 'add_only': True},
